@@ -57,6 +57,10 @@ type SliceAlias = []int
 
 type PtrAlias = *S
 
+// an annotation on an ALIAS declaration (the reader accepts any type declaration)
+//«x9»
+type AliasS = S
+
 func UseAliases(f Failure, a AnyAlias, s SliceAlias, p PtrAlias) {
 	_ = f
 	_ = a
@@ -208,7 +212,7 @@ func ZZC10Stress2() { c10Stress(2, "") }
 func ZZC10StressImm() { c10Stress(1, "x5") }
 
 func c10Stress(maxNonPlain int, fixedImm string) {
-	names := []string{"x1", "x2", "x3", "x4", "x5", "x6", "x7", "x8", "y1", "y2", "y3"}
+	names := []string{"x1", "x2", "x3", "x4", "x5", "x6", "x7", "x8", "x9", "y1", "y2", "y3"}
 	holes := []nd.Hole{}
 	nonPlain := 0
 	for _, n := range names {
